@@ -325,6 +325,11 @@ theorem invC1_step (c0 : Cfg) (hne : c0.incoming ≠ [] ∨ c0.outgoing ≠ []) 
   have hC1 := hC.c1
   have same : ∀ i, NC1 s (s.nodes i) := fun i => hC1.node i
   cases e with
+  | read r =>
+    simp only [applyEvent, ok] at h
+    split at h
+    · cases h; exact ⟨hC.c1.atr, hC.c1.ret, hC.c1.reti, hC.c1.retd⟩
+    · cases h
   | bump i t =>
     simp only [applyEvent, ok] at h
     split at h
